@@ -227,11 +227,14 @@ def make_record(spec, cls=None):
         for r in spec["refs"]:
             ref = Reference()
             ref.title, ref.authors, ref.journal = r["title"], r["authors"], r["journal"]
+            if r.get("span"):
+                ref.location = [FeatureLocation(0, len(spec["seq"]))]   # "bases 1 to N", as every parsed GenBank reference has
             refs.append(ref)
         ann["references"] = refs
     kw = {}
     if "letters" in spec:
-        kw["letter_annotations"] = {k: list(v) for k, v in spec["letters"].items()}
+        # per-letter tracks may be lists, tuples (track names starting with "tup_") or strings (Biopython accepts all three)
+        kw["letter_annotations"] = {k: (v if isinstance(v, str) else tuple(v) if k.startswith("tup_") else list(v)) for k, v in spec["letters"].items()}
     return (cls or CircularRecord)(
         Seq(spec["seq"]), id=spec.get("id", "rec"), name=spec.get("name", spec.get("id", "rec")),
         description=spec.get("description", "desc"), features=feats, annotations=ann or None,
@@ -242,7 +245,11 @@ def rand_feature_parts(rng, n, kind=None, strand="any"):
     """a location over a record of length n in one of the shapes of DESIGN section 3"""
     if strand == "any":
         strand = rng.choice([1, -1, None])
-    kind = kind or rng.choice(["simple", "simple", "wrapjoin", "join", "whole", "past", "site"])
+    kind = kind or rng.choice(["simple", "simple", "wrapjoin", "join", "whole", "past", "site", "mixed"])
+    if kind == "mixed" and n >= 6:
+        # a join whose parts lie on different strands (trans-splicing, a primer pair annotated as one feature)
+        cuts = sorted(rng.sample(range(n + 1), 4))
+        return [[cuts[0], cuts[1], 1], [cuts[2], cuts[3], -1]] if rng.random() < 0.5 else [[cuts[2], cuts[3], -1], [cuts[0], cuts[1], 1]], "mixed"
     if kind == "site":
         # a between-base site (GenBank a^b): zero-length location, alone or as a part of a join
         a = rng.randrange(n + 1)
